@@ -232,14 +232,44 @@ type EvalConfig struct {
 	MayWrite func(callee *ssa.Function) map[string]bool
 	// SnapshotAll: snapshot the state at every event (expensive; used by few rules).
 	SnapshotAll bool
+	// NoSamePkgInline disables the default policy of evaluating small helpers of the analysed function's own
+	// package in place (so that extracting a helper does not change a summary). Functions whose calls are the
+	// protocol events the rules look for (protocolNames) are never inlined by that policy.
+	NoSamePkgInline bool
+	// Opaque: additional function names kept opaque by the same-package policy.
+	Opaque map[string]bool
 }
 
 type Evaluator struct {
-	P    *Program
-	TS   *Terms
-	Cfg  EvalConfig
-	Err  error
-	done []*Path
+	P       *Program
+	TS      *Terms
+	Cfg     EvalConfig
+	Err     error
+	done    []*Path
+	rootPkg *ssa.Package
+}
+
+// protocolNames: functions whose calls are events of the rules' specifications; the same-package inlining
+// policy never evaluates them in place (a rule that wants one inlined says so through EvalConfig.Inline).
+var protocolNames = map[string]bool{
+	"Apply": true, "PreExecute": true, "PostExecute": true, "OnSuccess": true, "OnFailure": true, "IsFailure": true, "ToExecutor": true, "Build": true,
+	"IsAbortable": true, "IsConfigured": true, "ComputeDelay": true, "AppliesToAny": true, "errorAs": true, "ErrorTypesMatch": true,
+	"HandleErrors": true, "HandleErrorTypes": true, "HandleResult": true, "HandleIf": true, "AbortOnErrors": true, "AbortOnErrorTypes": true, "AbortOnResult": true, "AbortIf": true,
+	"CopyWithResult": true, "CopyForCancellable": true, "CopyForHedge": true, "copy": true, "record": true, "RecordResult": true, "InitializeRetry": true,
+	"Cancel": true, "IsCanceledWithResult": true, "isCanceledWithResult": true, "newExecution": true, "newExecutionDoneEvent": true,
+	"execute": true, "executeSync": true, "executeAsync": true, "Get": true, "getDelay": true,
+	"acquirePermits": true, "acquirePermitsWithMaxWait": true, "AcquirePermit": true, "AcquirePermits": true, "AcquirePermitWithMaxWait": true, "AcquirePermitsWithMaxWait": true,
+	"TryAcquirePermit": true, "TryAcquirePermits": true, "ReservePermit": true, "ReservePermits": true, "TryReservePermit": true, "TryReservePermits": true, "ReleasePermit": true,
+	"RecordSuccess": true, "RecordFailure": true, "RecordError": true, "recordSuccess": true, "recordFailure": true, "recordResult": true,
+	"tryAcquirePermit": true, "checkThresholdAndReleasePermit": true, "open": true, "close": true, "halfOpen": true, "Open": true, "Close": true, "HalfOpen": true, "transitionTo": true,
+	"newClosedState": true, "newOpenState": true, "newHalfOpenState": true, "newStats": true, "newCountingStats": true, "newTimedStats": true,
+	"currentBucket": true, "remove": true, "reset": true, "setNext": true, "state": true,
+	"executionCount": true, "failureCount": true, "failureRate": true, "successCount": true, "successRate": true,
+	"bodyReader": true, "doRequest": true, "MergeContexts": true, "FailureResult": true, "WithDone": true, "WithFailure": true, "DelayFunc": true,
+	"Builder": true, "RetryPolicyBuilder": true, "BuilderWithFunc": true, "BuilderWithResult": true, "BuilderWithError": true,
+	"RandomDelay": true, "RandomDelayFactor": true, "RandomDelayInRange": true, "RoundDown": true, "NewStopwatch": true, "NewClock": true,
+	"Run": true, "RunWithExecution": true, "GetWithExecution": true, "RunAsync": true, "GetAsync": true, "RunWithExecutionAsync": true, "GetWithExecutionAsync": true,
+	"NewExecutor": true, "WithContext": true, "Reset": true, "Result": true, "Error": true, "IsDone": true, "Done": true,
 }
 
 func NewEvaluator(p *Program, cfg EvalConfig) *Evaluator {
@@ -526,6 +556,13 @@ func (ev *Evaluator) Param(fn *ssa.Function, name string) *T {
 func (ev *Evaluator) RunFrom(st0 *State, fn *ssa.Function, args []*T, free []*T) []*Path {
 	st := st0.clone()
 	st.base = len(st.frames)
+	if ev.rootPkg == nil {
+		root := fn
+		for root.Parent() != nil {
+			root = root.Parent()
+		}
+		ev.rootPkg = root.Pkg
+	}
 	ev.pushFrame(st, fn, args, free, nil, false)
 	ps := ev.drive(st)
 	for _, p := range ps {
@@ -1204,6 +1241,10 @@ func (ev *Evaluator) doCall(st *State, fr *Frame, c *ssa.CallCommon, instr ssa.I
 			}
 		} else if ev.Cfg.Inline != nil {
 			inline = ev.Cfg.Inline(callee, depth)
+		}
+		if !inline && !ev.Cfg.NoSamePkgInline && !c.IsInvoke() && e.FnTerm == nil && callee.Parent() == nil && callee.Pkg != nil && callee.Pkg == ev.rootPkg && ev.P.InScope[callee] &&
+			!protocolNames[callee.Name()] && !ev.Cfg.Opaque[callee.Name()] {
+			inline = true
 		}
 		// no recursion
 		for _, f := range st.frames[st.base:] {
